@@ -53,7 +53,7 @@ func Run(tier string, seed uint64, modelPath, repo string, out *res.Result) erro
 	}
 	out.Rule = "L1: random page lists (<=5 pages, anchor names from a pool of 5 incl. the empty name, internal/external/attachment links incl. dangling) through resolveLinks, " +
 		"random bookmark-level lists (length<=12, levels 1..9 jumping both ways, 3% with levels<=0) through makeBookmarkTree, compared with the Lean models (exact per-page anchor sequence) and judged; corpus documents first; " +
-		"L2: generated HTML documents (headings/ids incl. duplicates, internal/dangling/external links, bookmark CSS, metadata, transforms, backgrounds/gradients/images, all border styles, " +
+		"L2: generated HTML documents (headings/ids incl. duplicates, internal/dangling/external links, bookmark CSS, metadata with leading/trailing/inner whitespace of every kind and whitespace-only or empty first titles, SVG clip paths and masks whose children draw nothing, dash arrays summing to zero with negative/huge offsets, transforms, backgrounds/gradients/images, all border styles, " +
 		"radii, outlines, text decorations, tables, lists, columns, inline SVG with unique fill colours, font-family lists mixing Ahem/weasyprint with DejaVu Sans/Serif/Mono and texts mixing ASCII with Greek/Cyrillic/arrows/box drawing (several fonts per DrawText) in paragraphs, bold/italic spans, SVG <text> and margin boxes, page breaks, bleed/marks, zoom 0.5/1/2) written onto a recording backend; " +
 		"the call sequence is judged by the Lean monitor; non-trivial = L1 case with >=2 entries / document with >=40 backend calls; distinct by input text"
 	render.Quiet()
@@ -486,6 +486,9 @@ func runDocs(m *mp.Model, r *rng.R, n int, fonts text.FontConfiguration, out *re
 			if strings.Contains(f.Key, ":svg:") {
 				lim = 2
 			}
+			if f.Op == "judge:metadata" {
+				lim = 0 // the expected metadata belong to the generated document: a reduced text has other metadata
+			}
 			if shrunk[cls] < lim {
 				// minimise the first documents of every class (ddmin over the document text, same class must persist)
 				shrunk[cls]++
@@ -828,7 +831,11 @@ func check(m *mp.Model, spec *docSpec, caseSeed uint64, fonts text.FontConfigura
 		"keywords": strings.Join(spec.Keywords, "\x00"), "created": spec.Created, "modified": spec.Modified}
 	for _, k := range []string{"title", "description", "creator", "authors", "keywords", "created", "modified"} {
 		if rec.MetaCalls[k] != 1 || rec.Meta[k] != want[k] {
-			add("judge", "judge:metadata", k, fmt.Sprintf("%s: backend received %q (%d calls), document says %q", k, rec.Meta[k], rec.MetaCalls[k], want[k]), nil, nil)
+			head := spec.HTML
+			if i := strings.Index(head, "<style>"); i > 0 {
+				head = head[:i]
+			}
+			add("judge", "judge:metadata", k, fmt.Sprintf("%s: backend received %q (%d calls), the document's metadata, forwarded unchanged, are %q; head of the document: %q", k, rec.Meta[k], rec.MetaCalls[k], want[k], head), nil, nil)
 		}
 	}
 	return fs, nil
